@@ -195,7 +195,7 @@ func cmdDev(args []string) int {
 	prog.discharge(obls, axioms, solveOpts{timeout: time.Duration(*timeout) * time.Second, dir: dir, jobs: 16})
 	bad := 0
 	for i, o := range obls {
-		ok := (o.Status == "unsat" && !o.Cover) || (o.Status == "sat" && o.Cover)
+		ok := oblOK(o)
 		mark := "ok  "
 		if !ok {
 			mark = "FAIL"
@@ -399,7 +399,10 @@ func cmdCheck(args []string) int {
 }
 
 func oblOK(o *Obligation) bool {
-	return (o.Status == "unsat" && !o.Cover) || (o.Status == "sat" && o.Cover)
+	if o.Cover {
+		return o.Status == "sat" || o.Status == "not-refuted"
+	}
+	return o.Status == "unsat"
 }
 
 func sanitize(s string) string {
